@@ -147,7 +147,7 @@ __CPROVER_ensures(*out_size != 0 ==> (OUT_SENT && output[0] == (W_kind == notifi
                                        && G_hbi_arg == W_attr_index && *out_size == 3 + G_acc_out_size))
 __CPROVER_ensures(OUT_SENT ==> *out_size != 0)
 __CPROVER_assigns(*out_size, __CPROVER_object_upto(output, W_out_size), G_fnd_arg, G_flags_arg, G_hbi_arg,
-                  G_acc_calls, G_acc_index, G_acc_off, G_acc_size, G_acc_type, G_acc_buf, G_acc_enc, G_acc_ps, G_acc_cfg, G_acc_server, G_acc_rc, G_acc_out_size)
+                  G_acc)
 {{l2cap_output}}
 void h_l2cap_output(void) { SETUP; W_kind = nondet_int(); W_cfg_index = nondet_size(); W_attr_index = nondet_size(); W_ccc_index = nondet_size(); W_flags = nondet_u16(); W_handle = nondet_u16();
   W_enc = nondet_bool(); W_ps = nondet_int(); __CPROVER_assume(W_ps >= 0 && W_ps <= 3); G_conn_sec.is_encrypted = W_enc; G_conn_sec.pairing_status = W_ps; G_acc_calls = 0; G_N = nondet_size();
